@@ -119,12 +119,22 @@ class PyInfo(object):
                         top[1] += l[1]
                 elif isinstance(s, pyast.For):
                     for t in s.body:
-                        if isinstance(t, pyast.AugAssign) and isinstance(t.op, pyast.Add):
-                            l = self.linear(t.value)
-                            if l is None or not l[2] or l[1]:
-                                okform = False
+                        # `if isinstance(item, str): ret += A else: ret += B`: two representations of one item; each arm must have the prefix shape (PY-EFFECT compares them with the writer)
+                        arms = [t.body, t.orelse] if isinstance(t, pyast.If) and isinstance(t.test, pyast.Call) and getattr(t.test.func, 'id', None) == 'isinstance' and t.orelse else [[t]]
+                        consts = []
+                        for arm in arms:
+                            if len(arm) == 1 and isinstance(arm[0], pyast.AugAssign) and isinstance(arm[0].op, pyast.Add):
+                                l = self.linear(arm[0].value)
+                                if l is None or not l[2] or l[1]:
+                                    okform = False
+                                else:
+                                    consts.append(l[0])
                             else:
-                                per_item = (per_item or 0) + l[0]
+                                okform = False
+                        if okform and consts and all(c in (4, 5) for c in consts):
+                            per_item = (per_item or 0) + consts[-1]
+                        elif okform and len(consts) == 1:
+                            per_item = (per_item or 0) + consts[0]
                         else:
                             okform = False
                 else:
@@ -175,6 +185,49 @@ class PyInfo(object):
                         isinstance(c.func.value, pyast.Name) and c.func.value.id == 'struct' and c.args and isinstance(c.args[0], pyast.Constant) and isinstance(c.args[0].value, str):
                     out.append((os.path.basename(fn), c.lineno, c.args[0].value))
         return out
+
+
+def py_effect_rule(res, py):
+    """the Python writer and its size functions agree (rules/py_effect.py): every length word Python puts on the wire comes from the size functions"""
+    from . import py_effect as PE
+    from msa.effect import Outside, pstr, padd
+    res.rule('PY-EFFECT', 'message.py: for every type-code branch, for an array.array or a list as contents and for either byte order, the bytes Message.Flatten() writes for a field equal what '
+                          'FlattenedSize()/GetFieldContentsLength() compute for it (they supply the field-length word, the sub-Message length words and the transceiver\'s frame length); strings are '
+                          'counted in encoded bytes on both sides', floor=12)
+    try:
+        _, listed = PE.analyse(py.tree, py.consts, [])
+        rows, _ = PE.analyse(py.tree, py.consts, sorted(listed))
+    except Outside as e:
+        raise AnalysisBroken('PY-EFFECT: message.py is outside the evaluated fragment: %s' % e)
+    if len(listed) < 8:
+        raise AnalysisBroken('PY-EFFECT: only %d type codes found in the if/elif chains of message.py' % len(listed))
+    where = 'lang/python3/message.py'
+    name_diffs = {}
+    per_type = {}
+    for r in rows:
+        d = padd(r['writer'], {m: -c for m, c in r['size'].items()})
+        if r['kind'] == 'header':
+            res.ob('PY-EFFECT', '%s:%s' % (where, r['line']), 'header: Flatten writes %s bytes before the fields, FlattenedSize starts at %s' % (pstr(r['writer']), pstr(r['size'])), not d, function='Python:Flatten',
+                   key='PY-EFFECT|header', message='message.py: Flatten writes %s header bytes, FlattenedSize counts %s' % (pstr(r['writer']), pstr(r['size'])))
+            continue
+        dn = {m: c for m, c in d.items() if any('(name)' in a for a in m)}
+        dr = {m: c for m, c in d.items() if m not in dn}
+        if dn:
+            name_diffs[pstr(dn)] = r
+        per_type.setdefault(r['type'], []).append((r, dr))
+    any_row = [r for r in rows if r['kind'] == 'field'][0]
+    res.ob('PY-EFFECT', '%s:%s' % (where, any_row['line']), 'field name: written as 4 + encoded bytes + NUL and counted the same way', not name_diffs, function='Python:FlattenedSize',
+           key='PY-EFFECT|field-name', how='writer - size = %s' % (sorted(name_diffs) or 0),
+           message='message.py: Flatten writes a field name as its UTF-8 encoding but FlattenedSize counts its characters (writer - size = %s): for a field name with a non-ASCII character the '
+                   'frame length sent by the transceiver and the length word of an enclosing Message field are too small, and the C++ parser rejects or mis-frames the Message'
+                   % ', '.join(sorted(name_diffs)))
+    for t in sorted(per_type):
+        bad = [(r, dr) for (r, dr) in per_type[t] if dr]
+        tn = t if t != 'else' else 'any other type code (raw data)'
+        res.ob('PY-EFFECT', '%s:%s' % (where, any_row['line']), '%s: contents written = contents counted, in %d representation/byte-order combinations' % (tn, len(per_type[t])), not bad, function='Python:' + t,
+               key='PY-EFFECT|%s' % t, how=pstr(per_type[t][0][0]['size']),
+               message='message.py: for %s fields Flatten writes %s bytes but GetFieldContentsLength computes %s: the field-length word Python sends does not match the field, the C++ parser reads the '
+                       'next field header from the wrong offset' % (tn, pstr(bad[0][0]['writer']) if bad else '', pstr(bad[0][0]['size']) if bad else ''))
 
 
 def run(res, tier):
@@ -354,6 +407,8 @@ def run(res, tier):
                            'rejects the field' % (f.q, bound.text() if bound is not None else 'one', inc.text(20)))
     if n_mc < 2:
         raise AnalysisBroken('MICRO-COUNT: %d count-header updates found in MicroMessage.c' % n_mc)
+    # ------------------------------------------------------------------------------------------- PY-EFFECT
+    py_effect_rule(res, py)
     # ------------------------------------------------------------------------------------------- HEADER
     res.rule('HEADER', 'every writer starts a Message with three 32-bit words: protocol version constant, what code, field count', floor=3)
     ver = int(fx.macros['CURRENT_PROTOCOL_VERSION'][0]['body'].split()[0])
